@@ -455,6 +455,41 @@ func validateWire(r *Run, p *dhcpv4.DHCPv4, w []byte, cs string) {
 		last = int(c)
 	}
 	// the independent decoder recovers the packet's fields and option values
+	cutName := func(name string, capacity int) []byte {
+		b := []byte(name)
+		if len(b) > capacity {
+			b = b[:capacity]
+		}
+		if i := bytes.IndexByte(b, 0); i >= 0 {
+			b = b[:i]
+		}
+		return b
+	}
+	if !bytes.Equal(ref.sname, cutName(p.ServerHostName, 63)) {
+		r.Fail("c07-rfc-decoder-sname", cs, fmt.Sprintf("sname field reads %q, packet has %q", ref.sname, p.ServerHostName))
+	}
+	if !bytes.Equal(ref.file, cutName(p.BootFileName, 127)) {
+		r.Fail("c07-rfc-decoder-file", cs, fmt.Sprintf("file field reads %q, packet has %q", ref.file, p.BootFileName))
+	}
+	for _, f := range [][2]int{{44, 108}, {108, 236}} {
+		fld := w[f[0]:f[1]]
+		if i := bytes.IndexByte(fld, 0); i >= 0 && len(bytes.Trim(fld[i:], "\x00")) != 0 {
+			r.Fail("c07-name-field-not-zero-filled", cs, fmt.Sprintf("octets %d..%d: % x", f[0], f[1], fld))
+		}
+	}
+	if ref.op != byte(p.OpCode) || ref.htype != byte(p.HWType) || ref.hops != p.HopCount || ref.xid != [4]byte(p.TransactionID) ||
+		ref.secs != p.NumSeconds || ref.flags != p.Flags {
+		r.Fail("c07-rfc-decoder-header", cs, "op/htype/hops/xid/secs/flags differ from the packet's fields")
+	}
+	for i, ip := range []net.IP{p.ClientIPAddr, p.YourIPAddr, p.ServerIPAddr, p.GatewayIPAddr} {
+		want := [4]byte{}
+		if v4 := ip.To4(); v4 != nil {
+			copy(want[:], v4)
+		}
+		if [][4]byte{ref.ci, ref.yi, ref.si, ref.gi}[i] != want {
+			r.Fail("c07-rfc-decoder-address", cs, fmt.Sprintf("address field %d", i))
+		}
+	}
 	hl := len(p.ClientHWAddr)
 	if int(ref.hlen) != hl%256 {
 		r.Fail("c07-hlen", cs, "")
@@ -532,6 +567,32 @@ func genC01(r *Run) {
 }
 
 // validPacket builds wire bytes for mutation-based streams.
+// nonCanonWire: an accepted packet whose option area is unsorted, padded, and repeats codes
+// (zero-length instances first or last, other options between the instances)
+func (r *Run) nonCanonWire() []byte {
+	hdr := make([]byte, 240)
+	copy(hdr, []byte{1, 1, 6, 0, 0xde, 0xad, 0xbe, 0xef})
+	copy(hdr[28:], []byte{1, 2, 3, 4, 5, 6})
+	copy(hdr[44:], r.Bytes(r.Rng.Intn(20)))
+	copy(hdr[108:], r.Bytes(r.Rng.Intn(20)))
+	copy(hdr[236:], []byte{99, 130, 83, 99})
+	area := []byte{}
+	for k := r.Rng.Intn(10); k >= 0; k-- {
+		switch r.Rng.Intn(6) {
+		case 0:
+			area = append(area, 0)
+		default:
+			c := byte(r.Pick(1, 2, 53, 82, 12, 43, 43, 254))
+			n := r.Pick(0, 0, 1, 2, 3, 4, 5, 9, 40)
+			area = append(area, c, byte(n))
+			area = append(area, r.Bytes(n)...)
+		}
+	}
+	area = append(area, 255)
+	area = append(area, make([]byte, r.Rng.Intn(4))...)
+	return append(hdr, area...)
+}
+
 func (r *Run) validWire(maxOpts int) []byte {
 	p := pktOfArgs(r.randPkt(r.randOpts(maxOpts, 300)))
 	return p.ToBytes()
